@@ -355,6 +355,8 @@ def replay_batch(ctx, binp, cands, tag):
         extra += ["-sitemap", ctx.wg_sitemap]
     if getattr(ctx, "wg_sparse", False):
         extra += ["-sparseobs"]
+    if getattr(ctx, "wg_neg", False):
+        extra += ["-neg"]
     rc, out = vlib.sh([binp, "-seed", str(ctx.seed), "-out", prefix, "-mode", "replay", "-file", f] + extra,
                       timeout=600)
     if rc != 0 or not os.path.isfile(prefix + ".cases"):
@@ -679,6 +681,36 @@ def run_check(ctx, pid):
         deadline_found, dinfo = deadline_probe(ctx, binp)
         ctx.log("deadline probe (WaitTimeout / WaitCTX under release + re-arm): %s, %.1fs" % (dinfo, time.time() - t0))
     searched = len(terms)
+
+    def neg_search(nprog):
+        # C02's statement has no side condition on the sign of the count (C02_rest and C02_monitor are
+        # proved for every program): histories in which decrements overtake the increments covering them,
+        # so that zero is reached from below.  Judged without the in_domain gate (c02_judge_unc).
+        nterms, njsons, nenums, err = run_harness(ctx, binp, [
+            ("w_neg%d" % nprog, ["-mode", "randprog", "-n", nprog, "-neg", "-tmoevery", 1])], budget="widen")
+        if err or not nterms:
+            return len(terms)
+        nbad, _, err = judge(ctx, judge_name + "_unc", nterms, "widen_neg%d" % nprog)
+        if err:
+            return len(terms)
+        for j in njsons:
+            j["_negsearch"] = True
+        base = len(terms)
+        terms.extend(nterms)
+        jsons.extend(njsons)
+        enums.extend(nenums)
+        nf = sum(1 for _, c in nbad if c == 1)
+        nd = sum(1 for _, c in nbad if c == 2)
+        ctx.cov["negative_excursion_search"] = {"cases": len(nterms), "violate_the_monitor": nf, "differ_from_the_model": nd,
+                                                "went_negative": sum(1 for j in njsons if not j.get("_indom", True))}
+        ctx.log("negative-excursion histories (C02 unconditional, c02_judge_unc): %d cases, %d violate the monitor, %d differ from the model" % (len(nterms), nf, nd))
+        fails.extend((base + i, c) for i, c in nbad if c == 1)
+        diffs.extend((base + i, c) for i, c in nbad if c == 2)
+        return len(terms)
+
+    if pid == "C02" and ctx.wg_instrumented and not fails:
+        # the model is compared with the real code on these histories on every run (quick: a small sample)
+        searched = neg_search(120 if quick and not os.environ.get("VERIF_WG_NEG") else 1500)
     if (broken or diffs or ctx.cov.get("monitor_cross_check_disagreements")) and not fails and not deadline_found:
         # something broke but no recorded trace violates the property yet: search schedules on
         # the real code, then let the Go scheduler loose on it for a moment, before saying that
@@ -699,6 +731,8 @@ def run_check(ctx, pid):
                     searched = len(terms)
                     fails += [(base + i, c) for i, c in wbad if c == 1]
                     diffs += [(base + i, c) for i, c in wbad if c == 2]
+        if not fails and pid == "C02" and ctx.wg_instrumented:
+            searched = neg_search(700)
         if not fails:
             stress_found, sinfo = stress_run(ctx, binp, judge_name, 9 if ctx.wg_instrumented else 20, "search",
                                              max_traces=1500 if ctx.wg_instrumented else 6000)
@@ -717,14 +751,20 @@ def run_check(ctx, pid):
             ctx.violations.append("(not written)")
             continue
         shapes.add(shape)
+        neg = bool(j.get("_negsearch"))
+        ctx.wg_neg = neg
         if ctx.nreplay < 3:
-            j = minimise(ctx, binp, judge_name, j)
+            j = minimise(ctx, binp, judge_name + ("_unc" if neg else ""), j)
+        ctx.wg_neg = False
         key = json.dumps([j["progs"], j["sched"]])
         if key in reported:
             ctx.violations.append("(not written)")
             continue
         reported.add(key)
-        rep = {"case": view(j), "replay_input": {"progs": j["progs"], "sched": j["sched"]},
+        rep = {"case": view(j), "replay_input": dict({"progs": j["progs"], "sched": j["sched"]}, **({"neg": True} if neg else {})),
+               "domain_note": ("the count goes NEGATIVE in this history (a decrement overtakes the increment covering it): outside the side "
+                               "condition of C01 and of the client programs of C02's quantifier, inside C02's statement as written and as proved "
+                               "(C02_rest holds for every program); searched only because a tie / obligation had already broken") if neg else "",
                "verdict": "the trace recorded from the real code violates the %s monitor (%s)" % (
                    pid, "c01_ok = c01_spec on this well-formed trace" if pid == "C01" else "c02_ok / WaitTimeout probe"),
                "expected": "c01_ok = true" if pid == "C01" else "c02_ok = true and WaitTimeout probe = (nil iff sum of deltas = 0)",
@@ -771,7 +811,7 @@ def run_check(ctx, pid):
     nontriv = [j for j in jsons if j["preemptions"] > 0]
     # cases inside the property's domain (the conservative lower bound never negative), recomputed
     # here from the recorded events: the scheduler gates decrements so that ALL cases should be
-    indom = sum(1 for j in jsons if j.get("_indom", True))
+    indom = sum(1 for j in jsons if j.get("_indom", True) or j.get("_negsearch"))
     complete = sum(1 for j in jsons if j.get("_complete", True))
     # vacuity guard: a trace on which calls never return satisfies every monitor; a source on which
     # most scheduled cases do not run to completion (calls longer than the step budget, a goroutine
@@ -856,6 +896,7 @@ def replay(ctx, pid, path):
         print(log)
         return 2
     progs = [list(p) for p in inp["progs"][:-1]]
+    ctx.wg_neg = bool(inp.get("neg"))
     terms, jsons = replay_batch(ctx, binp, [(progs, inp["sched"])], "replay")
     if not terms[0]:
         print("replay run failed")
@@ -868,6 +909,8 @@ def replay(ctx, pid, path):
     if ctx.wg_sparse:
         terms, jsons = replay_batch(ctx, binp, [(progs, inp["sched"])], "replay2")
     judge_name = {"C01": "c01", "C02": "c02"}[pid] + ("_judge" if structural else "_trace_judge")
+    if inp.get("neg") and pid == "C02":
+        judge_name += "_unc"
     bad, _, err = judge(ctx, judge_name, [terms[0]], "replay")
     print(json.dumps(view(jsons[0]), indent=1))
     if err:
